@@ -36,6 +36,25 @@ class DispatchStream:
         case = [f"onmsg {int(rng.random() < 0.8)}"]
         uni = [rand_filter(rng) for _ in range(rng.randint(1, 5))]
         nid = 0
+        if rng.random() < 0.5:
+            # a family of filters extending one another (a, a/b, a/b/c, a/#): removing one must leave the others alone
+            base = [rng.choice(["a", "b", "é", "$x"])]
+            fam = ["/".join(base)]
+            for _ in range(rng.randint(1, 3)):
+                base.append(rng.choice(["a", "b", "c", "+"]))
+                fam.append("/".join(base))
+            if rng.random() < 0.5:
+                fam.append("/".join(base[:rng.randint(1, len(base))]) + "/#")
+            uni += fam
+            if rng.random() < 0.6:
+                # register the family, remove one member, then publish on every member's own topic
+                for f in fam:
+                    nid += 1
+                    case.append(f"add {hx(f)} {nid}")
+                case.append(f"remove {hx(rng.choice(fam))}")
+                for f in fam:
+                    t = "/".join((rng.choice(["a", "b"]) if l in ("+", "#") else l) for l in f.split("/"))
+                    case.append(f"msg {rng.choice([0, 1, 2])} {hx(t.encode())}")
         for _ in range(rng.randint(4, 16)):
             r = rng.random()
             if r < 0.3:
